@@ -33,3 +33,10 @@ pub fn all() -> &'static [PropDef] {
 pub fn crash_is_violation(id: &str) -> bool {
     matches!(id, "C16" | "C17")
 }
+
+/// Properties whose statement implies that the subject keeps answering after the operations the
+/// check performs: a worker death is a violation there, provided replaying the recorded case alone
+/// kills a fresh process again (see main.rs).
+pub fn crash_is_violation_if_reproduced(id: &str) -> bool {
+    matches!(id, "C07")
+}
